@@ -462,6 +462,10 @@ impl Cfg {
         }
         let mut rerun = true;
         let start = Instant::now();
+        #[cfg(feature = "verif")]
+        if !super::verif::begin_degrees() {
+            rerun = false;
+        }
         while rerun {
             // Rerun degree propagation if a single child node was updated.
             rerun = false;
@@ -473,6 +477,10 @@ impl Cfg {
                 debug!("failed to propagate degrees within allotted time");
                 rerun = false;
             }
+            #[cfg(feature = "verif")]
+            if !super::verif::degree_pass_done() {
+                rerun = false;
+            }
         }
     }
 
@@ -482,6 +490,10 @@ impl Cfg {
         let mut env = ValueEnvironment::new(&self.constants);
         let mut rerun = true;
         let start = Instant::now();
+        #[cfg(feature = "verif")]
+        if !super::verif::begin_values() {
+            rerun = false;
+        }
         while rerun {
             // Rerun value propagation if a single child node was updated.
             rerun = false;
@@ -491,6 +503,10 @@ impl Cfg {
             // Bail out if analysis takes more than 10 seconds.
             if start.elapsed() > MAX_ANALYSIS_DURATION {
                 debug!("failed to propagate values within allotted time");
+                rerun = false;
+            }
+            #[cfg(feature = "verif")]
+            if !super::verif::value_pass_done() {
                 rerun = false;
             }
         }
